@@ -390,6 +390,10 @@ class C09(Prop):
         mk("batch-logon-error-abandons-rest", [
             "mode net", "script u3 logon err", "step conn:c1", "step conn:c2", "step conn:c3 send:c1:a/ close:c2",
             "step idle", "step send:c1:b/"])
+        # table boundary: slots 1..49 full, the 50th network connection makes all_users grow from 50 to 100 entries;
+        # the console user (slot 0) and a user of the first chunk keep working afterwards
+        mk("fifty-one-connections", ["mode console", "script u3 netdead err"] + ["step conn:c%d" % i for i in range(1, 52)] +
+           ["step send:c51:a/ send:c1:b/ cin:c/", "step close:c2 conn:c52", "step send:c52:d/ tick"])
         mk("connect-rejected", ["mode net", "script k1 connect rej", "step conn:c1", "step conn:c2", "step send:c2:a/"])
         return B
 
